@@ -567,6 +567,7 @@ func report(verif, repo string, ps *PropSpec, tier string, seed int, results []*
 		name := "generation/" + strings.SplitN(e, ":", 2)[0]
 		emitViolation(name, map[string]interface{}{"obligation": name, "reason": "the function is no longer inside the verified subset or its contract no longer applies; no obligation can be discharged", "detail": e}, false)
 	}
+	nSearch := 0
 	for _, r := range failed {
 		payload := map[string]interface{}{
 			"obligation": r.Obl.Name, "kind": r.Obl.Kind, "function": r.Obl.Func, "at": r.Obl.Pos, "clause": r.Obl.Info,
@@ -583,6 +584,15 @@ func report(verif, repo string, ps *PropSpec, tier string, seed int, results []*
 			confirmed = conf
 		} else {
 			payload["reason"] = "no solver discharged the obligation within the time limit (unknown/timeout); it is discharged on the unchanged tree"
+			if nSearch < 3 {
+				nSearch++
+				if conf, m := searchOnRealCode(verif, repo, r, seed); len(m) > 0 {
+					for k, v := range m {
+						payload[k] = v
+					}
+					confirmed = conf
+				}
+			}
 		}
 		emitViolation(r.Obl.Name, payload, confirmed)
 	}
